@@ -85,7 +85,7 @@ class Config:
                 'nest': getattr(self, 'nest', False), 'inv32': getattr(self, 'inv32', False),
                 'keepgrad': getattr(self, 'keepgrad', False), 'spike': getattr(self, 'spike', None),
                 'inv16': getattr(self, 'inv16', False), 'fac32': getattr(self, 'fac32', False),
-                'perturb_ctor': getattr(self, 'perturb_ctor', False), 'mixdt': getattr(self, 'mixdt', False), 'fac16': getattr(self, 'fac16', False),
+                'perturb_ctor': getattr(self, 'perturb_ctor', False), 'frac_hair': getattr(self, 'frac_hair', False), 'mixdt': getattr(self, 'mixdt', False), 'fac16': getattr(self, 'fac16', False),
                 'hyper_factors': [{k: str(v) for k, v in d_.items()} for d_ in (getattr(self, 'hyper_factors', None) or [])],
                 'hyper': {k: (str(v) if not isinstance(v, list) else [str(x) for x in v]) for k, v in self.hyper.items()},
                 'ops': list(self.ops), 'seed': self.seed, 'sched_seed': getattr(self, 'sched_seed', None),
@@ -319,6 +319,11 @@ def make_prog(cfg):
         def mk(fresh=False):
             def H(n):
                 v = hp_arg(cfg.hyper[n], hplog, n)
+                if fresh and getattr(cfg, 'perturb_ctor', False) == 'callable' and not callable(v) and n != 'kl_clip':
+                    # … or with a SCHEDULE where the checkpoint holds a constant: the checkpointed constant is what counts
+                    # after the load (C09-mutW kept the constructor's callable)
+                    pv = (v + 1) if n in ('factor_update_steps', 'inv_update_steps') else (0.3 if n == 'factor_decay' else v * 3.0 + 0.01)
+                    return lambda _step=None, _pv=pv: _pv
                 if fresh and getattr(cfg, 'perturb_ctor', False) and not callable(v):
                     # the preconditioner a checkpoint is loaded into was constructed with OTHER constants (e.g. the
                     # run had changed them through a scheduler): load_state_dict() restores the checkpointed ones
@@ -339,7 +344,8 @@ def make_prog(cfg):
                 accumulation_steps=cfg.accum, allreduce_bucket_cap_mb=cfg.cap_mb,
                 assignment_strategy=cfg.strategy, colocate_factors=cfg.colocate,
                 compute_eigenvalue_outer_product=cfg.prediv, compute_method=cfg.method,
-                grad_worker_fraction=cfg.k / cfg.world, symmetry_aware=cfg.sym,
+                grad_worker_fraction=(sum([0.1] * 10) if getattr(cfg, 'frac_hair', False) and cfg.k == cfg.world and cfg.world > 1
+                                      else cfg.k / cfg.world), symmetry_aware=cfg.sym,
                 inv_dtype=(torch.bfloat16 if getattr(cfg, 'inv16', False) else (torch.float32 if getattr(cfg, 'inv32', False) else DT)),
                 factor_dtype=(torch.float16 if getattr(cfg, 'fac16', False) == 'f16' else torch.bfloat16 if getattr(cfg, 'fac16', False) else torch.float32 if getattr(cfg, 'fac32', False) else None),
                 update_factors_in_hook=cfg.hook,
@@ -1052,6 +1058,7 @@ def replay_case(ctx, payload, streams, oracles=()):
     cfg.fac32 = c.get('fac32', False)
     cfg.spike = tuple(c['spike']) if c.get('spike') else None
     cfg.perturb_ctor = c.get('perturb_ctor', False)
+    cfg.frac_hair = c.get('frac_hair', False)
     cfg.mixdt = c.get('mixdt', False)
     cfg.fac16 = c.get('fac16', False)
     cfg.hyper_factors = [{k: Fraction(v) for k, v in d_.items()} for d_ in c.get('hyper_factors', [])] or None
